@@ -82,6 +82,19 @@ Example C18_final_state_after_raise_sat :
   pc (final cfg_w (mkprog [] (ORaise 1 2) false 0 5 6 []) [Act (AExec Async [3] []); Wk; Wk]) = PExc 1 2.
 Proof. vm_compute. reflexivity. Qed.
 
+(* a raising task always ends in ERROR with a message, whatever the exception carries (the model's message is a
+   total function of the exception): from the point where the task is about to raise, its next step, any caller
+   actions, then the wrapper's step — the handler has no other exit.  (The driver ranges over exception SHAPES.) *)
+Theorem C18_raising_task_ends_in_error : forall c p l1 l2 l3 ty m,
+  pc (final c p l1) = PTask [] false -> out p = ORaise ty m -> Forall is_act l2 ->
+  let s := final c p (l1 ++ Wk :: l2 ++ Wk :: l3) in
+  status s = Error /\ msg s = MErr ty m /\ results s = None.
+Proof. exact raising_task_ends_in_error. Qed.
+Print Assumptions C18_raising_task_ends_in_error.
+Example C18_raising_task_ends_in_error_sat :
+  pc (final cfg_w (mkprog [] (ORaise 1 2) false 0 5 6 []) [Act (AExec Sync [3] []); Wk]) = PTask [] false.
+Proof. vm_compute. reflexivity. Qed.
+
 Theorem C18_cancel_flag_iff_requested : forall c p l, cancel (final c p l) = existsb is_cancel l.
 Proof. exact cancel_flag_iff_requested. Qed.
 Print Assumptions C18_cancel_flag_iff_requested.
